@@ -82,11 +82,59 @@ pub struct EdgeCase {
     pub vals: Vec<i64>,
     pub probes: Vec<i64>,
     pub via_array: bool,
+    /// how the owned Array1 is produced: 0 = from a Vec, 1 = sliced in place with step 2,
+    /// 2 = axis inverted in place, 3 = sliced in place to an offset sub-range
+    #[serde(default)]
+    pub arr_mode: u8,
+}
+
+/// An owned Array1 holding exactly `vals` (logically), produced the requested way.
+fn owned_array1<T: HEl>(vals: &[T], mode: u8) -> Array1<T> {
+    match mode % 4 {
+        1 if !vals.is_empty() => {
+            // interleave with foreign values, then keep every second element in place
+            let filler = vals[0].clone();
+            let mut buf = Vec::with_capacity(2 * vals.len());
+            for v in vals {
+                buf.push(v.clone());
+                buf.push(filler.clone());
+            }
+            let mut a = Array1::from(buf);
+            a.slice_collapse(ndarray::s![..;2]);
+            a
+        }
+        2 => {
+            let mut r: Vec<T> = vals.to_vec();
+            r.reverse();
+            let mut a = Array1::from(r);
+            a.invert_axis(ndarray::Axis(0));
+            a
+        }
+        3 if !vals.is_empty() => {
+            let filler = vals[0].clone();
+            let mut buf = vec![filler.clone()];
+            buf.extend(vals.iter().cloned());
+            buf.push(filler);
+            let n = vals.len();
+            let mut a = Array1::from(buf);
+            a.slice_collapse(ndarray::s![1..n + 1]);
+            a
+        }
+        _ => Array1::from(vals.to_vec()),
+    }
 }
 
 pub fn check_edges_t<T: HEl>(c: &EdgeCase) -> CheckResult {
     let input: Vec<T> = c.vals.iter().map(|&v| T::from_i(v)).collect();
-    let edges: Edges<T> = if c.via_array { Edges::from(Array1::from(input.clone())) } else { Edges::from(input.clone()) };
+    let edges: Edges<T> = if c.via_array {
+        let arr = owned_array1(&input, c.arr_mode);
+        if arr.iter().cloned().collect::<Vec<T>>() != input {
+            return Ok(Info::discarded());
+        }
+        Edges::from(arr)
+    } else {
+        Edges::from(input.clone())
+    };
     let want: Vec<T> = input.iter().cloned().collect::<BTreeSet<T>>().into_iter().collect();
     ensure!(edges.len() == want.len(), "wrong-value", "Edges built from {:?} has {} edges, the input has {} distinct values", input, edges.len(), want.len());
     ensure!(edges.is_empty() == want.is_empty(), "wrong-value", "Edges::is_empty disagrees with len");
@@ -132,6 +180,7 @@ pub fn check_edges_t<T: HEl>(c: &EdgeCase) -> CheckResult {
     }
     Ok(Info::new(want.len() >= 3 && interior)
         .class_if(c.via_array, "from-array1")
+        .class_if(c.via_array && c.arr_mode % 4 != 0, "from-array1:sliced/inverted-in-place")
         .class_if(want.len() < input.len(), "duplicates-in-input")
         .class_if(want.len() < 2, "fewer-than-two-edges"))
 }
@@ -223,7 +272,7 @@ fn enum_edges(ctx: &Ctx, max_len: usize) {
                     2 * d as i64
                 })
                 .collect();
-            let c = EdgeCase { ty: HTy::I64, vals, probes: probes.clone(), via_array: code % 2 == 1 };
+            let c = EdgeCase { ty: HTy::I64, vals, probes: probes.clone(), via_array: code % 2 == 1, arr_mode: (code / 2 % 4) as u8 };
             match guarded(&check_edges, &c) {
                 Ok(info) => {
                     evals += 1;
@@ -253,8 +302,9 @@ fn edges_strategy() -> impl Strategy<Value = EdgeCase> {
         prop_oneof![proptest::collection::vec(0i64..12, 0..12), proptest::collection::vec(-100i64..100, 0..60), proptest::collection::vec(0i64..256, 0..200)],
         proptest::collection::vec(-101i64..257, 1..40),
         any::<bool>(),
+        0u8..4,
     )
-        .prop_map(|(ty, vals, mut probes, via_array)| {
+        .prop_map(|(ty, vals, mut probes, via_array, arr_mode)| {
             let (vals, pr): (Vec<i64>, Vec<i64>) = if ty == HTy::U8 { (vals.iter().map(|v| v.rem_euclid(256)).collect(), probes.iter().map(|v| v.rem_euclid(256)).collect()) } else { (vals, probes.clone()) };
             probes = pr;
             // probe every edge and its neighbours as well
@@ -265,7 +315,7 @@ fn edges_strategy() -> impl Strategy<Value = EdgeCase> {
                     probes.push(*v + 1);
                 }
             }
-            EdgeCase { ty, vals, probes, via_array }
+            EdgeCase { ty, vals, probes, via_array, arr_mode }
         })
 }
 
@@ -341,7 +391,10 @@ pub fn check_hist_t<T: HEl>(c: &HistCase) -> CheckResult {
     for (step, p) in c.points.iter().enumerate() {
         let pt: Vec<T> = p.iter().map(|&v| T::from_i(v)).collect();
         let want: Option<Vec<usize>> = pt.iter().zip(&sorted).map(|(v, e)| model_bin(e, v)).collect();
-        let r = match catch(|| h.add_observation(&Array1::from(pt.clone()))) {
+        // odd steps hand the observation over as a reversed (stride -1) view of reversed storage
+        let rev_store: Vec<T> = pt.iter().rev().cloned().collect();
+        let rev_view = ndarray::ArrayView1::from(&rev_store[..]).slice_move(ndarray::s![..;-1]);
+        let r = match catch(|| if step % 2 == 1 { h.add_observation(&rev_view) } else { h.add_observation(&Array1::from(pt.clone())) }) {
             Ok(r) => r,
             Err(pn) => fail!("panic", "add_observation({:?}) panicked at step {}: {}", pt, step, pn),
         };
@@ -371,6 +424,19 @@ pub fn check_hist_t<T: HEl>(c: &HistCase) -> CheckResult {
     let mut order: Vec<usize> = (0..n).collect();
     order.sort_by_key(|&i| (c.perm_keys.get(i).cloned().unwrap_or(0), i));
     let m_p = m_c.select(ndarray::Axis(0), &order);
+    // same matrix, columns stored in reverse and viewed through a reversed axis
+    let flat_r: Vec<T> = c.points.iter().flat_map(|p| p.iter().rev().map(|&v| T::from_i(v))).collect();
+    let store_r = Array2::from_shape_vec((n, nd), flat_r).unwrap();
+    let m_r = store_r.slice(ndarray::s![.., ..;-1]);
+    {
+        let hm = match catch(|| m_r.histogram(mk_grid())) {
+            Ok(h) => h,
+            Err(p) => fail!("panic", "histogram() of the reversed-column view panicked: {}", p),
+        };
+        if let Err(e) = counts_equal(&hm.counts(), &model, &shape) {
+            fail!("wrong-value", "histogram() of a matrix view with a reversed column axis: {} (edges {:?}, points {:?})", e, sorted, c.points);
+        }
+    }
     for (name, m) in [("row-major matrix", &m_c), ("column-major matrix", &m_f), ("permuted rows", &m_p)] {
         let hm = match catch(|| m.histogram(mk_grid())) {
             Ok(h) => h,
